@@ -6,9 +6,6 @@ Mathlib matrices over ℚ. -/
 namespace Ptn.C12
 open Ptn.C13 Finset
 
-/-- No symbolic entry. -/
-def NumM (A : EMat) : Prop := AllE (Entry.SymIn (fun _ => False)) A
-
 /-- The `p × q` rational matrix of an operator matrix. -/
 def ratMat (X : RMat) (p q : Nat) : Matrix (Fin p) (Fin q) ℚ := fun i j => gR X i j
 
@@ -19,19 +16,6 @@ theorem sumN_eq_sum (n : Nat) (f : Nat → Rat) : sumN n f = ∑ i : Fin n, f i 
   induction n with
   | zero => simp [sumN]
   | succ n ih => rw [Fin.sum_univ_castSucc, sumN, ih]; simp
-
-theorem numM_gM {A : EMat} (h : NumM A) (i j : Nat) : ∃ q, gM (Entry.num 0) A i j = Entry.num q := by
-  have : Entry.SymIn (fun _ => False) (gM (Entry.num 0) A i j) := by
-    unfold gM
-    by_cases hi : i < A.length
-    · have hm : A.getD i [] ∈ A := by
-        rw [List.getD_eq_getElem?_getD, List.getElem?_eq_getElem hi]; exact List.getElem_mem hi
-      exact allE_getD trivial (h _ hm) j
-    · have hn : A[i]? = none := List.getElem?_eq_none (by omega)
-      simp [List.getD_eq_getElem?_getD, hn, Entry.SymIn]
-  cases hg : gM (Entry.num 0) A i j with
-  | num q => exact ⟨q, rfl⟩
-  | sym q s => rw [hg] at this; exact absurd this (by simp [Entry.SymIn])
 
 /-- For a numeric matrix the Python test `!= 0` is "the rational entry is not zero". -/
 theorem nz_iff_numMat {A : EMat} (h : NumM A) (p q : Nat) (i : Fin p) (j : Fin q) :
@@ -46,13 +30,6 @@ theorem mfullyReduced_numMat {A : EMat} (h : NumM A) (hr : FullyReduced A) (p q 
     exact Fin.ext (hr.1 i j j' ((nz_iff_numMat h p q i j).2 h1) ((nz_iff_numMat h p q i j').2 h2))
   · intro i i' j h1 h2
     exact Fin.ext (hr.2 i i' j ((nz_iff_numMat h p q i j).2 h1) ((nz_iff_numMat h p q i' j).2 h2))
-
-theorem numM_nesm {A : EMat} (h : NumM A) : NESM A := by
-  intro r hr e he
-  have := h r hr e he
-  cases e with
-  | num q => trivial
-  | sym q s => exact absurd this (by simp [Entry.SymIn])
 
 /-- The factorisation `Γ = L · M' · R` returned by the model, as an equation of Mathlib matrices. -/
 theorem numMat_factor (M : EMat) (n : Nat) (hpos : 0 < M.length) (hrect : Rect M n) (hnum : NumM M)
